@@ -22,6 +22,7 @@ let () =
   register "zp_div_rem" (fun a -> out (pair tints tints) (div_rem_bigint (zp (arg a 0)) (zp (arg a 1))));
   register "zp_div_exact" (fun a -> pure (match div_exact (zp (arg a 0)) (zp (arg a 1)) with Some q -> tl [tid "some"; tints q] | None -> tid "none"));
   register "zp_cont_pp" (fun a -> pure (pair ti tints (cont_pp (zp (arg a 0)))));
+  register "zp_content" (fun a -> pure (ti (content (zp (arg a 0)))));
   register "qp_from_raw" (fun a -> pure (trats (qp (arg a 0))));
   register "qp_add" (fun a -> pure (trats (padd opsQc (qp (arg a 0)) (qp (arg a 1)))));
   register "qp_sub" (fun a -> pure (trats (psub opsQc (qp (arg a 0)) (qp (arg a 1)))));
